@@ -18,13 +18,22 @@ CONFIG = dict(
           "the witness (indices/masks/draws) recovered from unique element tags. Components generic over an identifier are also run as `<A>` instances, alone and next to "
           "the Global instance with a different rate/strength (each must follow its own parameters). Guard corners (negative, "
           "infinite, NaN strength and rate) are generated; inputs outside the documented domain go to the `!malformed` sites and "
-          "never count as violations (the model must still agree on them). A case is non-trivial if its input has at least 3 elements in some "
+          "never count as violations (the model must still agree on them). (3) extensions: every helper additionally on seeded inputs of "
+          "length 8..64 (tuples of every length up to n, slices at the very start/end, empty and whole slices, assertion just violated, "
+          "cycle structures with few long / many short cycles); components with dimension 12..40 and populations up to 12, and with "
+          "dimension 0 (empty solutions; sites `!malformed`); `(adapt MODE (set S R) case)`: MutationStrength/MutationRate overwritten in "
+          "the state (set_value or a fresh insert) between init and execute, incl. 1->0, 0->1, invalid->valid, valid->invalid; `(via CTOR "
+          "case)`: the component built through every other public constructor (new_dev, new_bound, new_full, new_uniform, "
+          "new_uniform_full, new_with_id, from_params, new_insert_single, new_insert_both), the argument the constructor does not take "
+          "carrying a different value; `(mutdefault ..)`: the default driver `mutation()` with a user-side Mutation on stacks of height "
+          "1..3, all succeeding or one failing (first / middle / last individual). A case is non-trivial if its input has at least 3 elements in some "
           "list; distinct = distinct canonical input."),
     nontrivial=lambda inp: re.search(r"\((?:[^()\s]+ ){2,}[^()\s]+\)", inp) is not None,
     trusted_base=[
         "Vec/slice primitives (swap, rotate_left/right, drain, splice, truncate, extend, swap_with_slice, position) are represented by their list semantics",
         "itertools circular_tuple_windows / multizip / chunks represented by their list semantics",
-        "rand's samplers are not modelled: every random choice is an explicit witness recovered from the output"],
+        "rand's samplers are not modelled: every random choice is an explicit witness recovered from the output",
+        "State registry (insert / set_value / get_value of MutationRate<T>, MutationStrength<T>) represented by a two-field record per component instance"],
     assumptions=["SplitMix64-seeded generator; mahf's Random seeded ChaCha12 per case",
                  "floats produced by arithmetic compared with relative tolerance 1e-9"],
 )
@@ -38,7 +47,15 @@ CONFIG.update(
                 "keep the dimension and are the identity at rate 0, the five permutation mutations return permutations for every "
                 "legal witness, the parameter guards (as functions of the parameter value incl. NaN/inf, shared with the driver) accept "
                 "exactly the stated sets, NPointCrossover/UniformCrossover as components are position-wise (NPoint for 1 <= n < dim), the recombination frame's offspring counts, DEMutation's format, DE crossovers position-wise, the "
-                "crossover gate u < pc (probability 0 never crosses, probability 1 always does, for every draw; exercised with an all-zero generator)."
+                "crossover gate u < pc (probability 0 never crosses, probability 1 always does, for every draw; exercised with an all-zero generator); "
+                "`recombination()` as ONE model function (gate, helper, from_pair, frame, panic propagation): a run is the frame over its recombine results, the "
+                "offspring count equals 2*#uncrossed + (2 if insert_both else 1)*#crossed + n mod 2 for all parents/draws/witnesses (probability 1: n/2 resp. "
+                "2*(n/2) children + remainder; probability 0: size kept; new_insert_single / new_insert_both as constructors), and for Uniform, NPoint (1 <= n < dim), "
+                "Cycle and Arithmetic crossover on a WHOLE population: never panics and every new solution is a parent or a well-formed child (position-wise of the "
+                "dimension / again a permutation of the base / convex); rate-gated loops keep the number of individuals and every dimension; the parameters are read "
+                "from the STATE: init stores the constructor's values, any overwrite replaces them, a rate adapted to 0 makes every legal execution the identity whatever "
+                "the constructor's rate, an adapted rate outside [0,1] errs although the constructor's was fine; the 'full' constructors store rate 1 (every coordinate "
+                "replaced); `mutation()` puts the mutated population back index by index when every mutate succeeds."
                 " Tied to /repo by running the real helpers exhaustively in a small "
                 "scope and the real components on seeded populations, diffing against the compiled model (K) and evaluating the "
                 "property predicate on the implementation's output (O)."),
@@ -46,6 +63,13 @@ CONFIG.update(
                 "the constructor accepts every n, and n = 0 / n >= dim panics whenever a pair is crossed (known finding "
                 "NPointCrossover@n-out-of-range [panic], Lean: npoint_n_out_of_range_violates). Trusted: Lean kernel; slice/iterator primitives represented by list semantics; harness + driver printing. "
                 "partial: sampling algorithms of `rand` are outside the model (witness refinement); floating-point rounding in "
-                "arithmetic crossover / DE mutation is modelled in exact arithmetic in the theorems and compared with tolerance."),
+                "arithmetic crossover / DE mutation is modelled in exact arithmetic in the theorems and compared with tolerance. "
+                "Oracle notes: an output individual may keep its objective value only if its solution is bit-identical to an input individual "
+                "(un-evaluating everything is accepted as well); at rate 1 with a proper distribution (sigma, bound > 0, non-empty domain) every coordinate must "
+                "have changed (an exactly-zero change has probability < 1e-14 per coordinate). "
+                "Observed, outside the wording of C13 (modelled, theorem mutation_default_err_drops_population, site mutation-default): `mutation()` returns on the "
+                "first Err of a user's `mutate` before pushing the popped population back, so the population is lost and the stack is one lower. "
+                "Degenerate inputs modelled and routed to `!malformed`: InsertionMutation panics on an empty solution (gen_range(0..0)), both DE crossovers panic for a "
+                "zero-dimensional problem as soon as there is a pair."),
     timeout_quick=600,
 )
